@@ -76,10 +76,10 @@ impl Check for C22 {
     }
     fn gens(&self) -> Vec<GenSpec> {
         vec![
-            GenSpec { name: "tree", quick: 3000, thorough: 150_000 },
-            GenSpec { name: "fd", quick: 2000, thorough: 100_000 },
-            GenSpec { name: "clpz", quick: 1500, thorough: 50_000 },
-            GenSpec { name: "unify", quick: 6000, thorough: 300_000 },
+            GenSpec { name: "tree", quick: 6000, thorough: 450_000 },
+            GenSpec { name: "fd", quick: 4000, thorough: 200_000 },
+            GenSpec { name: "clpz", quick: 3000, thorough: 150_000 },
+            GenSpec { name: "unify", quick: 12_000, thorough: 900_000 },
         ]
     }
     fn rule(&self) -> &'static str {
@@ -90,8 +90,8 @@ impl Check for C22 {
     }
     fn floor(&self, tier: Tier) -> u64 {
         match tier {
-            Tier::Quick => 5000,
-            Tier::Thorough => 200_000,
+            Tier::Quick => 10_000,
+            Tier::Thorough => 600_000,
         }
     }
     fn required_counters(&self) -> Vec<&'static str> {
